@@ -200,3 +200,23 @@ pub assume_specification<T, U, F: FnOnce(T) -> U + core::marker::Destruct>[ Opti
     ensures
         o is None ==> r == d,
         o is Some ==> f.ensures((o->Some_0,), r);
+
+// `s.trim_start_matches('c')`, `s.trim_end_matches('c')`: ALL leading / trailing c removed
+pub open spec fn trim_start_c(s: Seq<char>, c: char) -> Seq<char>
+    decreases s.len()
+{
+    if s.len() > 0 && s[0] == c { trim_start_c(s.skip(1), c) } else { s }
+}
+pub open spec fn trim_end_c(s: Seq<char>, c: char) -> Seq<char>
+    decreases s.len()
+{
+    if s.len() > 0 && s.last() == c { trim_end_c(s.drop_last(), c) } else { s }
+}
+#[verifier::external_body]
+pub fn vx_trim_start_char<'a>(s: &'a str, c: char) -> (r: &'a str)
+    ensures r@ == trim_start_c(s@, c)
+{ s.trim_start_matches(c) }
+#[verifier::external_body]
+pub fn vx_trim_end_char<'a>(s: &'a str, c: char) -> (r: &'a str)
+    ensures r@ == trim_end_c(s@, c)
+{ s.trim_end_matches(c) }
